@@ -41,9 +41,9 @@ CLAIMED = {
                 technique="deterministic simulation with storage-fault injection: valid files from the real writers are torn, flipped, zeroed, dropped or duplicated on a simulated disk (plus in-flight EIO/short reads), then loaded and used under ASan/UBSan with allocation and read-call accounting",
                 text="Each run damages a valid, writer-produced file on the simulated disk with 1-2 storage faults and hands it to the loader, then uses what was loaded. Oracle: an exception, or a load "
                      "whose results satisfy the loader's own predicate (event::is_valid), and always no signal, no sanitizer report, bounded read calls and bounded allocation. The thorough tier "
-                     "enumerates every truncation offset of the sample event file and gA tables; the other fault kinds (flip, overwrite, zeroed/dropped/duplicated block or line, stale-tail splice, empty) are seeded samples; "
+                     "enumerates every truncation offset of the sample event file and gA tables; the other fault kinds (flip, overwrite, zeroed/dropped/duplicated block or line, stale-tail splice, one field overwritten by its neighbour or by an edge value, empty) are seeded samples; "
                      "gA objects are re-loaded after a rejected table and must then behave like pristine ones.",
-                note="Not grammar-based fuzzing of arbitrary byte strings: only the storage-fault vocabulary over valid files (said in DESIGN.md). The fourth anchor (command-line parser) has no file; malformed command lines are exercised by C13."),
+                note="Not grammar-based fuzzing of arbitrary byte strings: only the storage-fault vocabulary over valid files, plus one field-granular overwrite (said in DESIGN.md). The fourth anchor (command-line parser) has no file; malformed command lines are exercised by C13."),
     "C13": dict(level="fault_enumeration", ref="DESIGN.md section 3 (C13)", replay_flavour="asan",
                 technique="deterministic simulation: the program's real main() in-process over a simulated file system and clock; every kill point of every run enumerated as a snapshot after each write(2) and inside writes; write-fault injection; reference model written against the public API",
                 text="The real bxdecay0-run main(), parser and driver run in-process with argv from a seeded plan, output on the simulated disk and time() simulated. Checked: byte equality of the event file "
@@ -54,10 +54,10 @@ CLAIMED = {
                 note="Kill points are enumerated exhaustively per explored run (fault_enumeration); the command-line space is sampled. fsync/rename-style durability is out of scope: the program does not use them and the property does not ask."),
     "C12": dict(level="exploration", ref="DESIGN.md section 3 (C12)", replay_flavour="asan",
                 technique="deterministic simulation of thread schedules: real threads parked on futexes and released one at a time by a seeded scheduler at intercepted GSL/mutex/deviate points, injected quadrature tolerance misses, history checked by vector-clock race detection, solo-run equivalence and a TSan-invisible hand-off that lets ThreadSanitizer report logical races",
-                text="2-3 clients with their own generators run on real threads whose interleaving is decided by the plan (preemptions biased into the GSL error-handler save/disable..restore window), "
+                text="2-3 clients with their own generators (decay0_generator, or a directly used dbd_gA instance) run on real threads whose interleaving is decided by the plan (preemptions biased into the GSL error-handler save/disable..restore window), "
                      "with real and injected quadrature tolerance misses. Checked on the recorded history: the application's base GSL handler is never invoked during a quadrature (no schedule-dependent abort), "
                      "each client's events equal its solo run bit for bit, no happens-before race on the process-wide handler, no ThreadSanitizer report in the tsan flavour, no deadlock. Two of the four batches run every "
-                     "plan in a freshly forked process with the tasks' reads as extra schedule points and __cxa_guard modelled as a lock, so that first use of lazily initialised statics happens under preemption. Every violation replays from its plan.",
+                     "plan in a freshly forked process with the tasks' reads as extra schedule points and __cxa_guard modelled as a lock, so that first use of lazily initialised statics happens under preemption; there the solo reference is also computed in a child forked before any client ran, and a companion suite pairs clients of the same DBD mode and different nuclides. Every violation replays from its plan.",
                 note="Schedules are sampled; schedule points are the intercepted GSL, pthread-mutex and deviate calls. TSan cannot see inside libgsl: the handler variable is shadowed. A blocking primitive other than a pthread mutex would show as a harness stall (exit 2)."),
 }
 
